@@ -8,6 +8,7 @@ Part B: generated ASSIGN / DEFINE / UPDATE histories over report steps are pushe
         deck text -> Parser -> Schedule -> UDQConfig(step).eval(...) and compared with a
         reference state machine.
 """
+import json
 import math
 
 from hypothesis import strategies as st
@@ -698,12 +699,23 @@ class GB:
     evaluated-once are distinguishable); shapes of the known part-A findings are avoided by construction
     as far as possible (no ^, no eps-comparisons, no UNDEF)"""
 
-    def __init__(self, src, tk):
+    def __init__(self, src, tk, refs=()):
         self.src = src
         self.tk = tk
+        self.refs = list(refs)          # other quantities of the history an expression may read (their current values)
 
     def atom(self, shape):
         src = self.src
+        if self.refs and shape in ("S", "W") and src.int(0, 3) == 0:
+            fq = [q for q in self.refs if q[0] == "F"]
+            wq = [q for q in self.refs if q[0] == "W"]
+            if shape == "W" and wq:
+                return ["var", src.choice(wq), src.choice([None, None, "P*"])]
+            if shape == "S" and (fq or wq):
+                q = src.choice(fq + wq)
+                if q[0] == "F":
+                    return ["var", q, None]
+                return ["var", q, src.choice([w for w, _ in B_WELLS[:2]]), src.bool()]
         if shape == "S":
             c = src.int(0, 3)
             if c == 0:
@@ -771,7 +783,10 @@ def build_hist_case(data):
     def define(q):
         tk = q[0]
         shape = "S" if tk == "F" else src.choice([tk, tk, tk, "S"])
-        return ["DEFINE", q, GB(src, tk).gen(shape, src.int(0, 2))]
+        # may read the other quantities introduced so far (not itself, and no group quantities: ASSIGN of those is a
+        # recorded finding)
+        refs = [x for x in seen if x != q and x[0] in "FW"]
+        return ["DEFINE", q, GB(src, tk, refs).gen(shape, src.int(0, 2))]
 
     def assign(q, full):
         v = src.choice(["1", "2.5", "-3", "7", "0.25", "12", "0"])
@@ -1040,6 +1055,8 @@ class C17(Check):
                     labels.append("B:group-assign")
                 if r[0] == "DEFINE":
                     labels.append("B:define-target:" + r[1][0])
+                    if any(q in json.dumps(r[2]) for q in B_QUANTITIES):
+                        labels.append("B:define-reads-other-udq")
 
         def subseq(seq, pat):
             i = 0
@@ -1191,7 +1208,12 @@ class C17(Check):
                     pc = {"wells": wells, "target": q,
                           "field": [[k, v] for k, v in cur["field"].items()],
                           "wvars": [[var, list(d.items())] for var, d in cur["wvars"].items()],
-                          "gvars": [[var, list(d.items())] for var, d in cur["gvars"].items()], "udqs": []}
+                          "gvars": [[var, list(d.items())] for var, d in cur["gvars"].items()],
+                          # a DEFINE reads other UDQs from the UDQ state: this step's value if already evaluated
+                          # (evaluation follows the order of first appearance), else the previous one; no value = undefined
+                          "udqs": [[o, o[0], (vals.get(o, {}).get("") if o[0] == "F" else
+                                              [[e, v] for e, v in vals.get(o, {}).items() if v is not None])]
+                                   for o in case["quantities"] if o != q]}
                     ref = Ref(pc)
                     res = ref.result(defs[q])
                     hazards |= ref.hazards
